@@ -879,6 +879,9 @@ func c09ErrorPath(w *World, r *Report) {
 			}
 		}
 	}
+	if !okRet {
+		okRet = c09PresetResult(unit, fn)
+	}
 	if okRet {
 		r.pass(rule, "syntax-error edge returns the input unchanged and an error", w.pos(fn.Pos()), "")
 	} else {
@@ -900,6 +903,73 @@ func c09ErrorPath(w *World, r *Report) {
 			r.add(rule, "cli: "+strings.TrimPrefix(o.Key, "C16/format-cli "), o.OK, o.Pos, o.Detail)
 		}
 	}
+}
+
+// c09PresetResult: the same fact without a branch in the entry function: a return hands back (variable, err) where err is what a
+// function of the unit returns - nil only if no syntax error was reported - and the variable holds the input text unless it is
+// re-assigned, which happens only behind the no-error edge of a gate (in the function or in a closure the unit runs there).
+// Every return of the entry function that lies behind such a parse must be of that form.
+func c09PresetResult(u *parseUnit, fn *ssa.Function) bool {
+	if len(fn.Params) == 0 {
+		return false
+	}
+	found := false
+	for _, b := range fn.Blocks {
+		ret, ok := b.Instrs[len(b.Instrs)-1].(*ssa.Return)
+		if !ok || len(ret.Results) != 2 {
+			continue
+		}
+		// is the error result the verdict of a parse of the unit?
+		var call *ssa.Call
+		idx := 0
+		switch x := stripIdentity(ret.Results[1]).(type) {
+		case *ssa.Call:
+			call = x
+		case *ssa.Extract:
+			call, _ = x.Tuple.(*ssa.Call)
+			idx = x.Index
+		}
+		if call == nil {
+			continue
+		}
+		if _, isVerdict := u.nilOnlyWithoutErrors(call, idx, 0); !isVerdict {
+			continue
+		}
+		// the text result: the input itself, or a variable that is the input wherever errors were reported
+		if ret.Results[0] == ssa.Value(fn.Params[0]) {
+			found = true
+			continue
+		}
+		var al *ssa.Alloc
+		if ld, isLoad := ret.Results[0].(*ssa.UnOp); isLoad && ld.Op == token.MUL {
+			al = cellOfAddr(ld.X)
+		}
+		if al == nil || al.Parent() != fn {
+			return false
+		}
+		stores, escaped := cellStores(al)
+		if escaped {
+			return false
+		}
+		preset := false
+		for _, st := range stores {
+			if stripIdentity(st.Val) == ssa.Value(fn.Params[0]) {
+				if st.Parent() == fn && instrDominates(st, call) {
+					preset = true
+				}
+				continue
+			}
+			// any other assignment: before the parse (then the preset must come after it - not modelled: refuse), or behind a gate
+			if !u.gated(st, 0, map[ssa.Value]bool{}) {
+				return false
+			}
+		}
+		if !preset {
+			return false
+		}
+		found = true
+	}
+	return found
 }
 
 // ---------------- C10 ----------------
@@ -993,6 +1063,26 @@ func runC10(w *World, r *Report) {
 				if depth > 0 {
 					okDsl, detail = false, "dsl returned by "+fnKey(x.Parent())
 					return false
+				}
+			case *ssa.Store:
+				// kept in a local variable (the result preset to the input, a closure sharing it): what reads the variable uses the text
+				al, isCell := x.Addr.(*ssa.Alloc)
+				if !isCell || x.Val != v {
+					okDsl, detail = false, "dsl used by "+ref.String()
+					return false
+				}
+				if _, escaped := cellStores(al); escaped {
+					okDsl, detail = false, "dsl kept in a variable whose address escapes: "+ref.String()
+					return false
+				}
+				for _, ld := range cellLoads(al) {
+					d := depth
+					if li, ok := ld.(ssa.Instruction); ok && li.Parent() != x.Parent() {
+						d = depth + 1
+					}
+					if !onlyParsed(ld, d) {
+						return false
+					}
 				}
 			case *ssa.ChangeType:
 				if !onlyParsed(x, depth) {
